@@ -1210,6 +1210,57 @@ class Normaliser:
                 i = 0
         process(node.body)
 
+    # ---- small value-level simplifications after de-memoisation ----------------------------------------------------------------
+    def simplify_options(self, node):
+        """T = (e0, e1); x = T[1]           ->  x = e1                       (T a fresh single-assignment name used only as T[const])
+        x = E if C else None; if x is not None: S   ->  if C: x = E; S       (the "optional value" idiom)"""
+        def process(body):
+            changed = True
+            while changed:
+                changed = False
+                for i, st in enumerate(body):
+                    if isinstance(st, ast.Assign) and len(st.targets) == 1 and isinstance(st.targets[0], ast.Name) and isinstance(st.value, ast.Tuple) \
+                            and '__i' in st.targets[0].id:
+                        T = st.targets[0].id
+                        uses = [n for r in body[i + 1:] for n in ast.walk(r) if isinstance(n, ast.Name) and n.id == T]
+                        subs = [n for r in body[i + 1:] for n in ast.walk(r) if isinstance(n, ast.Subscript) and isinstance(n.value, ast.Name) and n.value.id == T
+                                and isinstance(n.slice, ast.Constant) and isinstance(n.slice.value, int) and 0 <= n.slice.value < len(st.value.elts)
+                                and isinstance(n.ctx, ast.Load)]
+                        stores = [n for r in body[i + 1:] for n in ast.walk(r) if isinstance(n, ast.Name) and n.id == T and isinstance(n.ctx, ast.Store)]
+                        if uses and len(uses) == len(subs) and not stores:
+                            elts = st.value.elts
+
+                            class R(ast.NodeTransformer):
+                                def visit_Subscript(self, n):
+                                    n = self.generic_visit(n)
+                                    if isinstance(n.value, ast.Name) and n.value.id == T and isinstance(n.slice, ast.Constant) and isinstance(n.ctx, ast.Load):
+                                        return ast.copy_location(clone(elts[n.slice.value]), n)
+                                    return n
+                            body[i + 1:] = [R().visit(r) for r in body[i + 1:]]
+                            del body[i]
+                            changed = True
+                            break
+                    if isinstance(st, ast.Assign) and len(st.targets) == 1 and isinstance(st.targets[0], ast.Name) and isinstance(st.value, ast.IfExp) \
+                            and isinstance(st.value.orelse, ast.Constant) and st.value.orelse.value is None and i + 1 < len(body):
+                        x = st.targets[0].id
+                        nxt = body[i + 1]
+                        if isinstance(nxt, ast.If) and U(nxt.test).replace(' ', '') in ('%sisnotNone' % x, '%s!=None' % x) \
+                                and not any(isinstance(n, ast.Name) and n.id == x for n in ast.walk(st.value.test)) \
+                                and not any(isinstance(n, ast.Name) and n.id == x for r in body[i + 2:] for n in ast.walk(r)):
+                            first = [] if U(st.value.body) == x else [ast.copy_location(ast.Assign(targets=[ast.Name(id=x, ctx=ast.Store())], value=st.value.body), st)]
+                            new_if = ast.copy_location(ast.If(test=st.value.test, body=first + nxt.body, orelse=nxt.orelse), nxt)
+                            body[i:i + 2] = [new_if]
+                            changed = True
+                            break
+            for st in body:
+                for f in ('body', 'orelse', 'finalbody'):
+                    sub = getattr(st, f, None)
+                    if isinstance(sub, list) and sub and isinstance(sub[0], ast.stmt):
+                        process(sub)
+        process(node.body)
+        for x in node.body:
+            ast.fix_missing_locations(x)
+
     def run(self):
         node = clone(self.fi.node)
         self.memo_issues = []
@@ -1217,6 +1268,7 @@ class Normaliser:
         node.body = self.block(node.body, {}, (self.fi.qualname,))
         self.dememoise(node)          # memo tables that came in with inlined helpers
         self.fuse_item_tables(node)
+        self.simplify_options(node)
         self.split_paths(node)
         ast.fix_missing_locations(node)
         for n in ast.walk(node):
